@@ -32,7 +32,7 @@ TECHNIQUE = "runtime differential oracle over structure-conforming generated val
 SHARDS = {"quick": 8, "thorough": 16}
 TIMEOUT = {"quick": 300, "thorough": 3000}
 FLOORS = {"oracle.typed_roundtrip": 2000, "oracle.plain_roundtrip": 500, "functions.with_structure_covered": 100,
-          "catalogue.functions_checked": 100, "catalogue.lookups": 128 * 256, "alternatives.covered": 100}
+          "catalogue.functions_checked": 100, "catalogue.lookups": 128 * 256, "alternatives.covered": 100, "catalogue.isolation_checks": 10}
 
 
 def _items_catalogue():
@@ -234,6 +234,31 @@ def _catalogue_consistency(ctx):
     ctx.exhaustive["catalogue_metadata_and_all_SF_lookups"] = True
 
 
+def _catalogue_isolation(ctx):
+    """Customising one container (the documented StreamsFunctions.update) must not change what any other default container,
+    or the shipped catalogue, resolves for the same S/F numbers."""
+    from secsgem.secs.functions import SecsStreamFunction, StreamsFunctions
+    from secsgem.secs.functions._all import secs_streams_functions
+
+    rng = ctx.rng
+    shipped = {(c.stream, c.function): c for c in secs_streams_functions}
+    for s, f in [(1, 12), (6, 11), (2, 42), (99, 1), (1, 1)] + [rng.choice(sorted(shipped)) for _ in range(10)]:
+        custom = type(f"CustomS{s:02d}F{f:02d}", (SecsStreamFunction,), {"_stream": s, "_function": f, "_data_format": "< MDLN >"})
+        a = StreamsFunctions()
+        a.update(custom)
+        b = StreamsFunctions()
+        ctx.count("catalogue.isolation_checks")
+        ctx.case(("isolation", s, f), nontrivial=True)
+        if a.function(s, f) is not custom:
+            ctx.violation("update-does-not-take-effect-in-its-own-container", {"S/F": f"S{s}F{f}"})
+        if b.function(s, f) is not shipped.get((s, f)):
+            ctx.violation("customising-one-container-changes-lookup-in-another", {"S/F": f"S{s}F{f}", "got": getattr(b.function(s, f), "__name__", None)})
+        now = {(c.stream, c.function): c for c in secs_streams_functions}
+        if now != shipped:
+            ctx.violation("customising-a-container-rewrites-the-shipped-catalogue", {"S/F": f"S{s}F{f}"})
+            secs_streams_functions[:] = list(shipped.values())
+
+
 def run(ctx):
     from secsgem.secs.functions import StreamsFunctions
     from secsgem.secs.functions._all import secs_streams_functions
@@ -241,6 +266,7 @@ def run(ctx):
     rng = ctx.rng
     if ctx.shard == 0:
         _catalogue_consistency(ctx)
+    _catalogue_isolation(ctx)   # before the round trips: they use a fresh default container
     cat = _items_catalogue()
     SF = StreamsFunctions()
     per_fn = 60 if ctx.quick else 800
